@@ -353,6 +353,7 @@ func genC13(r *rand.Rand, tier string, i int) input {
 				in.Ops = append(in.Ops, u)
 			default:
 				u := g.user()
+				u.K = "upsert_user"
 				u.UID = vh.Pick(r, "", string(make([]byte, 300)))
 				in.Ops = append(in.Ops, u)
 			}
